@@ -173,7 +173,10 @@ std::optional<sqf::runtime::fileio::pathinfo> sqf::fileio::impl_default::get_inf
 {
     log(logmessage::fileio::ResolvePhysicalRequested(current.physical, current.virtual_, viewVirtual));
 
-    std::filesystem::path toFindPath(viewVirtual);
+    // backslash is a separator in requests (as in get_info_virtual and add_mapping), also where the platform's path class does not know it
+    auto requested = std::string(viewVirtual);
+    std::replace(requested.begin(), requested.end(), '\\', '/');
+    std::filesystem::path toFindPath(requested);
     toFindPath = toFindPath.lexically_normal();
     if (toFindPath.is_relative() || (viewVirtual.size() > 3 && (viewVirtual.substr(0, 3) == "../"sv || viewVirtual.substr(0, 3) == "..\\"sv)))
     {
